@@ -66,7 +66,8 @@ class C02(object):
                    'conservative independent graph analysis of the submitted text proves unreferenced']
     required_counters = ('equations_judged', 'exact_judged', 'lag_judged', 'hostile.loud', 'failpoint.recovered',
                          'model_level.judged', 'rival_user_function.cases', 'solver_reused_for_variant.cases',
-                         'solver_reused_after_coarser_block.cases', 'route.constructor', 'route.manual_steps')
+                         'solver_reused_after_coarser_block.cases', 'route.constructor', 'route.manual_steps',
+                         'zero_tolerance_requested.cases')
 
     def n_cases(self, tier):
         return 400 if tier == 'quick' else 40000
@@ -106,8 +107,11 @@ class C02(object):
         tol = 10 ** rng.uniform(-12, -1)
         if nonlinear:
             tol = min(tol, 1e-2)
+        zero_tol = idx % 10 == 7
         spec = G.gen_affine(rng, nonlinear=nonlinear, cyclic=cyclic,
-                            tol=tol if rng.random() < 0.5 else None)
+                            tol=tol if (rng.random() < 0.5 and not zero_tol) else None)
+        if zero_tol:
+            tol = 0.0        # requested on the solver object: an exact fixed point, or a loud failure
         earlier = None
         if rng.random() < 0.25:
             # the same solver object first reads and solves a VARIANT of the system (same names, other coefficients)
@@ -185,6 +189,8 @@ class C02(object):
             solver.TraceStep = case['trace']
             if case['tol_via'] == 'param':
                 solver.ParameterErrorTolerance = case['tol']
+                if case['tol'] == 0.0:
+                    counters['zero_tolerance_requested.cases'] = 1
             if case.get('userfn'):
                 solver.AddFunction('uf', lambda v: 0.1 * v + 1.0)
                 funcs['uf'] = lambda v: 0.1 * v + 1.0
